@@ -34,7 +34,10 @@ impl Container {
             .copied()
             .unwrap_or(self.src.len());
 
-        let mut src = &self.src[..end];
+        let mut src = self
+            .src
+            .get(..end)
+            .ok_or_else(|| io::Error::new(io::ErrorKind::InvalidData, "invalid landmark"))?;
 
         read_compression_header(&mut src)
     }
@@ -49,8 +52,14 @@ impl Container {
                 let start = landmarks[i];
                 i += 1;
                 let end = landmarks.get(i).copied().unwrap_or(self.src.len());
-                let mut src = &self.src[start..end];
-                Some(read_slice(&mut src))
+
+                let result = self
+                    .src
+                    .get(start..end)
+                    .ok_or_else(|| io::Error::new(io::ErrorKind::InvalidData, "invalid landmark"))
+                    .and_then(|mut src| read_slice(&mut src));
+
+                Some(result)
             } else {
                 None
             }
